@@ -136,6 +136,14 @@ static inline void L0_E_value_construct(E *d) {
   if (l0_cell_at(d)) { g_cell_st = ST_LIVE; g_cell_val = L0_VAL_INIT; }
   g_nctor++;
 }
+/* default-initialisation ('new (p) T;'): the object is alive, its value is indeterminate for the generic element type */
+static inline void L0_E_default_construct(E *d) {
+  l0_range_ok(d, 1, "dst");
+  if (l0_cell_at(d)) L0_assert(ST_OK_CONSTRUCT(g_cell_st), "C02: construct only on raw memory");
+  if (l0_elem_throws()) return;
+  if (l0_cell_at(d)) { g_cell_st = ST_LIVE; g_cell_val = nondet_int(); }
+  g_nctor++;
+}
 static inline void L0_E_construct_from__i32(E *d, int a) {
   (void)a;
   l0_range_ok(d, 1, "dst");
